@@ -83,6 +83,12 @@ extern long mpt_buffer_set(MPT_STRUCT(buffer) *buf, const MPT_STRUCT(type_traits
 	/* terminate overlapping target data, elements after new data are kept */
 	if (fini) {
 		size_t off, max = (end < used) ? end : used;
+		/* source elements must not be terminated before they are copied */
+		if (src_data && (pos < max)
+		 && ((uintptr_t) src_data < (uintptr_t) (ptr + max))
+		 && ((uintptr_t) src_data + len > (uintptr_t) (ptr + pos))) {
+			return MPT_ERROR(BadArgument);
+		}
 		for (off = pos; off < max; off += elem_size) {
 			fini(ptr + off);
 		}
